@@ -45,7 +45,7 @@ def worker_env(env_spec):
   return env
 
 
-def run_tasks(tasks, env, workdir, nproc):
+def run_tasks(tasks, base_spec, workdir, nproc):
   """Runs tasks as subprocesses, at most nproc at a time."""
   pending = list(enumerate(tasks))
   running = []
@@ -59,9 +59,11 @@ def run_tasks(tasks, env, workdir, nproc):
       with open(tpath, "w") as f:
         json.dump(task, f)
       ef = open(epath, "w")
+      spec = dict(base_spec)
+      spec.update(task.get("shard", {}).get("env", {}))
       p = subprocess.Popen(
           [sys.executable, "-m", "vp.worker", tpath, opath],
-          env=env, cwd=core.VERIF_DIR, stdout=subprocess.DEVNULL, stderr=ef)
+          env=worker_env(spec), cwd=core.VERIF_DIR, stdout=subprocess.DEVNULL, stderr=ef)
       running.append((i, p, opath, epath, ef))
     time.sleep(0.05)
     still = []
@@ -116,7 +118,7 @@ def main(argv):
   os.environ.setdefault("JAX_PLATFORMS", "cpu")
   sys.path.insert(0, core.REPO_DIR)
   mod = importlib.import_module(f"vp.props.{modname}")
-  env = worker_env(getattr(mod, "ENV", {}))
+  env = dict(getattr(mod, "ENV", {}))
   workdir = os.path.join(core.VERIF_DIR, ".work", f"{prop_id}-{tier}-{os.getpid()}")
   shutil.rmtree(workdir, ignore_errors=True)
   os.makedirs(workdir, exist_ok=True)
